@@ -87,6 +87,9 @@ pub struct Cmd {
     pub stdout: Stdout,
     pub cwd: PathBuf,
     pub timeout: Duration,
+    /// RLIMIT_FSIZE in 512-byte blocks with SIGXFSZ ignored: a regular-file sink then accepts
+    /// a short write at the limit and fails the next one (a real OS partial write)
+    pub fsize_blocks: Option<u64>,
 }
 
 impl Cmd {
@@ -99,10 +102,15 @@ impl Cmd {
             stdout: Stdout::Capture,
             cwd: cwd.to_path_buf(),
             timeout: Duration::from_secs(120),
+            fsize_blocks: None,
         }
     }
+    pub fn fsize_limit(mut self, blocks: u64) -> Cmd {
+        self.fsize_blocks = Some(blocks);
+        self
+    }
     pub fn os_args(cwd: &Path, args: Vec<OsString>) -> Cmd {
-        Cmd { bin: kestrel_bin(), args, env: vec![], stdin: Stdin::Null, stdout: Stdout::Capture, cwd: cwd.to_path_buf(), timeout: Duration::from_secs(120) }
+        Cmd { bin: kestrel_bin(), args, env: vec![], stdin: Stdin::Null, stdout: Stdout::Capture, cwd: cwd.to_path_buf(), timeout: Duration::from_secs(120), fsize_blocks: None }
     }
     pub fn env(mut self, k: &str, v: &str) -> Cmd {
         self.env.push((k.to_string(), OsString::from(v)));
@@ -138,7 +146,7 @@ impl Cmd {
             Stdin::Empty => "empty-pipe".to_string(),
             Stdin::Zeros(n) => format!("pipe({} zero bytes)", n),
         };
-        format!("kestrel {} env[{}] stdin={} stdout={:?}", a.join(" "), e.join(" "), si, self.stdout)
+        format!("kestrel {} env[{}] stdin={} stdout={:?}{}", a.join(" "), e.join(" "), si, self.stdout, self.fsize_blocks.map(|b| format!(" [ulimit -f {} with SIGXFSZ ignored]", b)).unwrap_or_default())
     }
 
     pub fn run(&self) -> Output {
@@ -148,6 +156,12 @@ impl Cmd {
         // tables of this multi-threaded monitor for every child.
         let mut c = Command::new("/usr/bin/setsid");
         c.arg("-w");
+        if let Some(blocks) = self.fsize_blocks {
+            c.arg("/bin/sh");
+            c.arg("-c");
+            c.arg(format!("trap '' 25; ulimit -f {}; exec \"$@\"", blocks));
+            c.arg("sh");
+        }
         c.arg(&self.bin);
         c.args(&self.args);
         c.env_clear();
@@ -225,6 +239,13 @@ impl Cmd {
                         let mut off = 0;
                         let mut i = 0;
                         while off < b.len() {
+                            // a size of 0 in the script is a long pause (longer than the key derivation
+                            // the tool performs before its first read), so the next read is really short
+                            if sizes.get(i).copied() == Some(0) {
+                                std::thread::sleep(Duration::from_millis(450));
+                                i += 1;
+                                continue;
+                            }
                             let n = sizes.get(i).copied().unwrap_or(65536).max(1).min(b.len() - off);
                             if h.write_all(&b[off..off + n]).is_err() {
                                 break;
